@@ -41,15 +41,11 @@ func vhMethod(tag string) CommandMethod {
 	if i := vParam("method", -1); i >= 0 {
 		return vhMethods[i]
 	}
-	m := CommandMethod(nondetString(tag, 11))
-	vAssume(m.Validate() == nil)
-	return m
+	return CommandMethod(nondetOneOf(tag, "get|set|delete|subscribe|unsubscribe|observe|merge"))
 }
 
 func vhEvent(tag string) NotificationEvent {
-	ev := NotificationEvent(nondetString(tag, 10))
-	vAssume(ev.Validate() == nil)
-	return ev
+	return NotificationEvent(nondetOneOf(tag, "accepted|dispatched|received|consumed|failed"))
 }
 
 // vhSenderOf: the node a reply must be addressed to (pp when present, else from).
